@@ -2053,6 +2053,7 @@ def search(ctx):
             if nfail <= 40:
                 ctx.fail(v["function"], {"spec": spec, "dirs": dirs, "sweep_seed": seed, "at": v.get("at"), "moved": moved},
                          v["observed"], v["expected"], v["oracle"])
+    needle_meshes(ctx)
     chk = notes.pop("checked", 0)
     ctx.extra["containment_test_crosschecks"] = chk
     dis = {k: len(v) for k, v in notes.items()}
@@ -2066,10 +2067,77 @@ def search(ctx):
                      "the surface sweep are checked")
 
 
+def needle_meshes(ctx):
+    """slender, finely tessellated convex meshes (a spindle of ~900 vertices, 100 : 0.3): the hill climb has to walk
+    hundreds of edges; judged against the brute-force maximum over the vertices (light oracle, no model)"""
+    from scipy.spatial import ConvexHull
+    from distance3d import colliders as C
+    rng = ctx.rng
+    for k in range(ctx.budget(2, 12)):
+        m, per = rng.choice([300, 400]), 3
+        half, rad = 50.0, 0.15
+        V = [[half, 0.0, 0.0], [-half, 0.0, 0.0]]
+        for i in range(1, m + 1):
+            th = math.pi * i / (m + 1)               # rings uniform in the polar angle: a point cloud of an ellipsoid
+            for jj in range(per):
+                a = 2 * math.pi * jj / per + (i % 2) * math.pi / per
+                V.append([half * math.cos(th), rad * math.sin(th) * math.cos(a), rad * math.sin(th) * math.sin(a)])
+        V = np.array(V)
+        hull = ConvexHull(V)
+        keep = np.unique(hull.simplices)
+        remap = -np.ones(len(V), dtype=int)
+        remap[keep] = np.arange(len(keep))
+        V, T = V[keep], remap[hull.simplices]
+        A = make_pose(general_rotation(rng), general_t(rng))
+        mesh = C.MeshGraph(A, np.ascontiguousarray(V), np.ascontiguousarray(T))
+        W = V.dot(A[:3, :3].T) + A[:3, 3]
+        for q in range(6):
+            # directions whose extreme vertex lies part of the way along the spindle (nearly across the axis)
+            th, ph = rng.choice([0.25, 0.75, 0.3, 0.6, 0.4]) * math.pi, rng.uniform(0, 2 * math.pi)
+            d = A[:3, :3].dot(unit(np.array([math.cos(th) / 50.0, math.sin(th) * math.cos(ph) / 0.15,
+                                             math.sin(th) * math.sin(ph) / 0.15])))
+            r = impl_support(mesh, d.tolist())
+            ctx.count("search:needle-mesh", key=("needle", k, q))
+            best = float(np.max(W.dot(d)))
+            tol = REL * 100.0
+            if not r["ok"] or float(np.dot(d, arr(r["p"]))) < best - tol:
+                ctx.fail("mesh.support_function", {"needle_mesh": {"rings": int(m), "per_ring": per, "pose": A.tolist()},
+                                                   "direction": d.tolist(), "query": q},
+                         r if not r["ok"] else {"d.p": float(np.dot(d, arr(r["p"])))},
+                         "brute-force maximum over the %d vertices: %r (tolerance %g)" % (len(V), best, tol),
+                         "brute force over the vertices of a slender convex mesh")
+                return
+
+
 # ------------------------------------------------------------------ replay
 def replay(ctx, payload):
     cases, aux = [], []
     args = payload.get("args") or {}
+    if isinstance(args, dict) and "needle_mesh" in args:
+        from scipy.spatial import ConvexHull
+        from distance3d import colliders as C
+        nm = args["needle_mesh"]
+        m, per, half, rad = int(nm["rings"]), int(nm["per_ring"]), 50.0, 0.15
+        V = [[half, 0.0, 0.0], [-half, 0.0, 0.0]]
+        for i in range(1, m + 1):
+            th = math.pi * i / (m + 1)
+            for jj in range(per):
+                a = 2 * math.pi * jj / per + (i % 2) * math.pi / per
+                V.append([half * math.cos(th), rad * math.sin(th) * math.cos(a), rad * math.sin(th) * math.sin(a)])
+        V = np.array(V)
+        hull = ConvexHull(V)
+        keep = np.unique(hull.simplices)
+        remap = -np.ones(len(V), dtype=int)
+        remap[keep] = np.arange(len(keep))
+        V, T = V[keep], remap[hull.simplices]
+        A = np.array(nm["pose"], dtype=float)
+        mesh = C.MeshGraph(A, np.ascontiguousarray(V), np.ascontiguousarray(T))
+        d = np.array(args["direction"], dtype=float)
+        r = impl_support(mesh, d.tolist())
+        best = float(np.max((V.dot(A[:3, :3].T) + A[:3, 3]).dot(d)))
+        got = float(np.dot(d, arr(r["p"]))) if r["ok"] else None
+        print("needle mesh (%d vertices): support value %r, brute-force maximum %r" % (len(V), got, best))
+        return bool(r["ok"] and got >= best - REL * 100.0)
     if isinstance(args, dict) and "spec" in args:
         cases.append((args["spec"], args["dirs"], args.get("sweep_seed", 0), args.get("moved"), args.get("start")))
     for o in payload.get("others", []) or []:
